@@ -88,6 +88,13 @@ int main() {
       if (dc != 0) { int want = (cr(a, b, c) * cr(a, b, d) <= 0 && cr(c, d, a) * cr(c, d, b) <= 0) ? DO_INTERSECT : DONT_INTERSECT;
         if (code != want) FAIL("segmentIntersectPoint((%g,%g),(%g,%g),(%g,%g),(%g,%g)) = %d, exact %d", a.x, a.y, b.x, b.y, c.x, c.y, d.x, d.y, code, want); }
       else if (code == DO_INTERSECT) FAIL("segmentIntersectPoint reports one point for parallel segments");
+      // segmentShapeIntersect(e = a-b, shape edge c-d, flag): crossing blocks; an end point of e on the half-open edge (c, d] with the other end off
+      // the edge's line is a contact (first one remembered and let through, a later one blocks); anything else neither blocks nor is remembered
+      { bool onA = (a == d) || (onClosed(c, d, a) && !(a == c) && !(a == d)), onB = (b == d) || (onClosed(c, d, b) && !(b == c) && !(b == d));
+        bool contact = (onA && cr(c, d, b) != 0) || (onB && cr(c, d, a) != 0);
+        for (int seen0 = 0; seen0 < 2; ++seen0) { bool seen = seen0 != 0; bool r = segmentShapeIntersect(a, b, c, d, seen);
+          bool wantR = proper ? true : (contact ? seen0 != 0 : false), wantSeen = proper ? seen0 != 0 : (contact ? true : seen0 != 0);
+          if (r != wantR || seen != wantSeen) FAIL("segmentShapeIntersect(e=(%g,%g)-(%g,%g), edge (%g,%g)-(%g,%g), seen=%d) = %d, seen=%d; exact %d, %d", a.x, a.y, b.x, b.y, c.x, c.y, d.x, d.y, seen0, (int)r, (int)seen, (int)wantR, (int)wantSeen); } }
     }
   }
   // axis-parallel rectangles, both orientations
@@ -300,4 +307,4 @@ ASSUMPTIONS = [
 ]
 EXPLANATION = ("Contracts on the real libavoid geometry predicates. Leaf layer: vecDir, colinear, pointOnLine, inBetween, segmentIntersectPoint and rayIntersectPoint return codes equal "
                "the exact integer oracle bit-precisely on an integer grid. Caller layer: segmentIntersect, segmentShapeIntersect and inPoly (loop contract, any polygon size) equal their "
-               "textbook definitions over an uninterpreted orientation for ALL doubles; Point::operator==/!=; symmetry lemmas; bounded stand-ins for inPoly's converse and inPolyGen.")
+               "textbook definitions over an uninterpreted orientation for ALL doubles (segmentShapeIntersect: a crossing blocks; an end point on the half-open shape edge (s1,s2] with the other end off the edge's line is a contact, the first remembered and let through, a later one blocking; anything else does neither); Point::operator==/!=; symmetry lemmas; bounded stand-ins for inPoly's converse and inPolyGen.")
